@@ -9,6 +9,7 @@ structure PK where
   ready : Bool
   max : Option Nat
   rpms : List Nat
+  names : List String
 
 structure St where
   rw : Option RW := none
@@ -17,6 +18,8 @@ structure St where
   edfW : List Nat := []
   edfCounts : Array Nat := #[]
   pk : Option PK := none
+  dropSt : DropState := {}
+  balMax : Option Nat := none     -- the balancer's requestCountMax (none before the first cluster config)
   count : Nat := 0            -- model's numRequests
   nextId : Nat := 0
   open_ : List (Nat × Bool) := []   -- admitted RPCs not yet finished; flag: its Done releases the request counter
@@ -120,9 +123,13 @@ def step : Step St := fun s fs impl =>
   | ["rnext", rS] =>
     match s.rw, rS.toNat? with
     | some rw, some r =>
-      match rw.range, rw.pick r with
-      | some n, some i => (s, s!"item {i} n={n}", monRnext s.rwW r impl)
-      | _, _ => (s, "nil", monRnext s.rwW r impl)
+      match rw.range with
+      | some n =>
+        let r := if n = 0 then r else r % n     -- the harness reduces a dictated value into the asked range
+        match rw.pick r with
+        | some i => (s, s!"item {i} n={n}", monRnext s.rwW r impl)
+        | none => (s, "nil", monRnext s.rwW r impl)
+      | none => (s, "nil", monRnext s.rwW r impl)
     | none, _ => (s, "no-wrr", "-")
     | _, _ => (s, "bad-op", "-")
   | ["renum", wsS] =>
@@ -192,13 +199,34 @@ def step : Step St := fun s fs impl =>
     match natList rpmS with
     | some rpms =>
       let max := if maxS = "-" then none else maxS.toNat?
-      ({ s with pk := some { ready := rdy = "1", max := max, rpms := rpms } }, "ok", "-")
+      ({ s with pk := some { ready := rdy = "1", max := max, rpms := rpms,
+                             names := (List.range rpms.length).map fun i => s!"c{i}" } }, "ok", "-")
+    | none => (s, "bad-op", "-")
+  | ["cfgupd", rdy, maxS, dsS] =>
+    let parsed : Option (List (String × Nat × Nat)) :=
+      if dsS = "-" then some [] else
+      (dsS.splitOn ",").mapM fun p => match p.splitOn ":" with
+        | [c, n, d] => do pure (c, (← n.toNat?), (← d.toNat?))
+        | _ => none
+    match parsed with
+    | some ovs =>
+      if ovs.any (fun (_, _, d) => d = 0) then (s, "bad-op", "-") else
+      let ds' := handleDrops s.dropSt ovs
+      -- updatePicker: drops changed, or (first config) the request counter / max_requests changed
+      let max := if maxS = "-" then 1024 else (maxS.toNat?).getD 1024
+      let changed := decide (s.dropSt.cats ≠ ds'.cats) || s.balMax != some max
+      ({ s with dropSt := ds', balMax := some max,
+                pk := some { ready := rdy = "1", max := some max, rpms := ds'.cats.map (·.rpm), names := ds'.cats.map (·.category) } },
+       s!"ok changed={changed}", "-")
     | none => (s, "bad-op", "-")
   | ["pick", okS, rsS] =>
     match s.pk, natList rsS with
     | some pk, some rs =>
       let childOK := okS = "1"
       let drops := pk.rpms.map newDropper
+      -- the harness reduces each dictated value into the range the dropper asks for
+      let rs0 := rs ++ List.replicate (drops.length - rs.length) 0     -- a missing dictated value counts as 0
+      let rs := (List.zip rs0 (drops.map fun d => (d.range).getD 1)).map fun (r, b) => if b = 0 then r else r % b
       let (res, c') := pick pk.ready drops rs pk.max childOK s.count
       -- bounds the code asks the random source for: one per consulted dropper
       let consulted := if !pk.ready then 0 else match res with
@@ -206,7 +234,7 @@ def step : Step St := fun s fs impl =>
         | _ => drops.length
       let bounds := (drops.take consulted).filterMap RW.range
       let lsS := match res with
-        | .dropped k => s!"[c{k}]"
+        | .dropped k => s!"[{pk.names.getD k "?"}]"
         | .cbDropped => "[]"
         | _ => "-"
       let out := s!"{showRes res s.nextId} n={c'} bounds={showNatList bounds} ls={lsS}"
@@ -218,16 +246,20 @@ def step : Step St := fun s fs impl =>
       let implN := kv impl "n" >>= String.toNat?
       let implBounds := (kv impl "bounds" >>= natList).getD []
       -- closed form: dropper k fires iff r_k * 1e6 < rpm_k * bound_k
-      let fires := (List.zip (List.zip pk.rpms rs) implBounds).map fun ((rpm, r), b) => decide (r * 1000000 < rpm * b)
+      -- judged with the bounds the IMPLEMENTATION asked for (a dictated value is reduced into that range)
+      let fires := (List.zip (List.zip pk.rpms rs0) implBounds).map fun ((rpm, r), b) =>
+        decide ((if b = 0 then r else r % b) * 1000000 < rpm * b)
+      let wantBounds := (pk.rpms.map fun rpm => 1000000 / Nat.gcd rpm 1000000).take implBounds.length
       let expectDrop : Option Nat := if pk.ready then fires.findIdx? id else none
       let admittedNow := implRes = "ok"
       let infl := if admittedNow && pk.max.isSome then s.inflight + 1 else s.inflight
       let verdict :=
         if implRes = "drop" && !pk.ready then "VIOL RPC dropped by category while the child policy is not READY"
         else if pk.rpms.any (· > 1000000) then "-"
+        else if implBounds ≠ wantBounds then "VIOL a category's dropper does not draw from the random range of its configured rate (10^6/gcd(rate,10^6))"
         else if implRes = "drop" && expectDrop.isNone then "VIOL RPC dropped although no category's fraction covers its random value"
         else if implRes ≠ "drop" && expectDrop.isSome then "VIOL RPC not dropped although a category's fraction covers its random value"
-        else if implRes = "drop" && kv impl "ls" ≠ expectDrop.map (fun k => s!"[c{k}]") then "VIOL drop attributed to the wrong category"
+        else if implRes = "drop" && kv impl "ls" ≠ expectDrop.map (fun k => s!"[{pk.names.getD k "?"}]") then "VIOL drop attributed to the wrong category"
         else match pk.max with
           | some max =>
             if implRes = "ok" && s.inflight ≥ max then s!"VIOL admitted an RPC with {s.inflight} already in flight, max_requests {max}"
